@@ -4,6 +4,8 @@
   the `Variant`; `step`/`run`; `deepUpdate`).
 -/
 import AeicProofs.Lemmas.Config
+import AeicProofs.Lemmas.ConfigProg
+import AeicModel.Generated.ConfigProg
 
 namespace C18
 open Aeic.Config
@@ -151,5 +153,76 @@ example : leafAt (.node (effective
     [("emissions", .node [("sox_enabled", .leaf "false")])]
     [("emissions", .node [("nox_method", .leaf "p3t3")])])) ["emissions", "sox_enabled"] = some "false" := by
   simp [leafAt, lookup, effective, deepUpdate, getKey, setKey]
+
+/-! ## Source tie: the event programs of the singleton code, regenerated from `config/core.py` on every run
+    (`Aeic.Gen.cfgLoadProgram`, `cfgConstructProgram`, `cfgResetProgram`; language and semantics: `AeicModel/ConfigProg.lean`) -/
+
+open Aeic.ConfigProg
+
+/-- the shape of the source: straight-line code (no `try`), the singleton is tested before it is assigned, and nothing that can
+    raise follows the assignment — for `Config.load` and for direct construction (`Config(**data)`, `model_validate`) alike -/
+theorem src_programs_shape :
+    (flat Aeic.Gen.cfgLoadProgram && safeAfter Aeic.Gen.cfgLoadProgram && noRaise Aeic.Gen.cfgLoadProgram &&
+      guarded Aeic.Gen.cfgLoadProgram && assigns Aeic.Gen.cfgLoadProgram) = true ∧
+    (flat Aeic.Gen.cfgConstructProgram && safeAfter Aeic.Gen.cfgConstructProgram && noRaise Aeic.Gen.cfgConstructProgram &&
+      guarded Aeic.Gen.cfgConstructProgram && assigns Aeic.Gen.cfgConstructProgram) = true := by
+  constructor <;> decide
+
+theorem load_flat : flat Aeic.Gen.cfgLoadProgram = true ∧ safeAfter Aeic.Gen.cfgLoadProgram = true ∧
+    noRaise Aeic.Gen.cfgLoadProgram = true := by decide
+theorem construct_flat : flat Aeic.Gen.cfgConstructProgram = true ∧ safeAfter Aeic.Gen.cfgConstructProgram = true ∧
+    noRaise Aeic.Gen.cfgConstructProgram = true := by decide
+
+/-- when does the `load` of the source raise: exactly when a stage fails or a configuration is active -/
+theorem load_raises (st : State) (l : LoadSpec) :
+    raisesB (failsOf l) st Aeic.Gen.cfgLoadProgram =
+      (!l.fileOk || !l.fieldsOk || st.isSome || !l.normalizeOk || !l.resolveOk) := by
+  cases h1 : l.fileOk <;> cases h2 : l.fieldsOk <;> cases h3 : l.normalizeOk <;> cases h4 : l.resolveOk <;> cases st <;>
+    simp [Aeic.Gen.cfgLoadProgram, raisesB, failsOf, h1, h2, h3, h4]
+
+/-- **the `load` of the source text is the staged model**: for every state and every pattern of failing stages the singleton
+    after the call is the model's, and the call raises exactly when the model reports an error -/
+theorem src_load_is_model (st : State) (l : LoadSpec) :
+    (exec (failsOf l) l.cfg Aeic.Gen.cfgLoadProgram st).1 = (load .fixed st l).1 ∧
+    ((exec (failsOf l) l.cfg Aeic.Gen.cfgLoadProgram st).2.isSome = true ↔ ∃ e, (load .fixed st l).2 = .err e) := by
+  obtain ⟨hf, hs, hn⟩ := load_flat
+  obtain ⟨h1, h2⟩ := exec_flat (failsOf l) l.cfg _ st hf hs hn
+  rw [h1, h2, load_raises]
+  have ha : assigns Aeic.Gen.cfgLoadProgram = true := by decide
+  simp only [ha, if_true]
+  unfold load
+  cases l.fileOk <;> cases l.fieldsOk <;> cases l.normalizeOk <;> cases l.resolveOk <;> cases st <;> simp
+
+/-- a `load` of the source that raises — at ANY stage — leaves the singleton exactly as it was -/
+theorem src_failed_load_leaves_state (fails : Nat → Bool) (cfg : Nat) (st : State)
+    (h : (exec fails cfg Aeic.Gen.cfgLoadProgram st).2.isSome = true) :
+    (exec fails cfg Aeic.Gen.cfgLoadProgram st).1 = st := by
+  obtain ⟨hf, hs, hn⟩ := load_flat
+  obtain ⟨h1, h2⟩ := exec_flat fails cfg _ st hf hs hn
+  rw [h1] at h; rw [h2, h]; simp
+
+/-- while a configuration is active, a `load` AND a direct construction are refused (they raise and change nothing), whatever the
+    new data -/
+theorem src_second_configuration_refused (fails : Nat → Bool) (cfg c : Nat) :
+    ((exec fails cfg Aeic.Gen.cfgLoadProgram (some c)).2.isSome = true ∧ (exec fails cfg Aeic.Gen.cfgLoadProgram (some c)).1 = some c) ∧
+    ((exec fails cfg Aeic.Gen.cfgConstructProgram (some c)).2.isSome = true ∧
+      (exec fails cfg Aeic.Gen.cfgConstructProgram (some c)).1 = some c) := by
+  obtain ⟨hf, hs, hn⟩ := load_flat
+  obtain ⟨hf', hs', hn'⟩ := construct_flat
+  obtain ⟨h1, h2⟩ := exec_flat fails cfg _ (some c) hf hs hn
+  obtain ⟨h1', h2'⟩ := exec_flat fails cfg _ (some c) hf' hs' hn'
+  have r1 : raisesB fails (some c) Aeic.Gen.cfgLoadProgram = true := by
+    simp [Aeic.Gen.cfgLoadProgram, raisesB]
+  have r2 : raisesB fails (some c) Aeic.Gen.cfgConstructProgram = true := by
+    simp [Aeic.Gen.cfgConstructProgram, raisesB]
+  rw [h1, h2, h1', h2', r1, r2]; simp
+
+/-- with nothing active and every stage passing, the new configuration becomes the active one; `reset` clears it -/
+theorem src_successful_load_and_reset (fails : Nat → Bool) (cfg : Nat) (hok : ∀ k, fails k = false) (st : State) :
+    exec fails cfg Aeic.Gen.cfgLoadProgram none = (some cfg, none) ∧
+    (exec fails cfg Aeic.Gen.cfgResetProgram st).1 = none := by
+  constructor
+  · simp [Aeic.Gen.cfgLoadProgram, exec, execEv, hok]
+  · simp [Aeic.Gen.cfgResetProgram, exec, execEv]
 
 end C18
